@@ -26,7 +26,8 @@ Record case := mkCase {
   cobs_e : option bytes;                (* TagVal after #{} *)
   cobs_bound : bool;                    (* the observer after binding was reached *)
   cobs_field : option cval;             (* final field value (None: not comparable) *)
-  cobs_err : nat                        (* 0 Run ok, 1 error, 2 panic, 3 hang *)
+  cobs_err : nat;                       (* 0 Run ok, 1 error, 2 panic, 3 hang *)
+  cfix : bool                           (* the ${} callback of the tree under test: true = repair D-C17g (facts probe, c18.py) *)
 }.
 
 Fixpoint evals_get (k : bytes) (t : list (bytes * res cval)) : res cval :=
@@ -146,7 +147,7 @@ Definition field_matches (c : case) (f : option cval) : bool :=
 
 Definition check_case (c : case) : bool :=
   let st0 := init_state c in
-  let q := stage_quote (m_cfg c) m_budget st0 in
+  let q := stage_quote (cfix c) (m_cfg c) m_budget st0 in
   let qobs_ok :=
     match q with
     | POk s1 => opt_bytes_eqb (Some (ps_tagval s1)) (cobs_q c)
@@ -162,7 +163,7 @@ Definition check_case (c : case) : bool :=
     | PErr _ => match cobs_e c with None => true | Some _ => false end
     end in
   qobs_ok && eobs_ok &&
-  match run_pipeline (m_cfg c) m_budget (m_eval c) (m_decode c) (m_verdict c) (cfacts c) st0 with
+  match run_pipeline (cfix c) (m_cfg c) m_budget (m_eval c) (m_decode c) (m_verdict c) (cfacts c) st0 with
   | POk st => Nat.eqb (cobs_err c) 0 && cobs_bound c && field_matches c (ps_field st)
   | PErr EValidate => Nat.eqb (cobs_err c) 1 && cobs_bound c
   | PErr EPanicked => Nat.eqb (cobs_err c) 2
